@@ -106,6 +106,16 @@ def operand_origin(body, op, steps=40):
         return "const"
     cur, proj = pl["l"], [x for x in pl["p"] if x != "*"]
     for _ in range(steps):
+        if proj and re.match(r"^\.\d+$", proj[0]):
+            # `.N` of a tuple built in place (`match (a, b)`, format_args!): look at the N-th component
+            ds0 = [d for d in M.def_sites(body, cur) if not body.is_cleanup(d[0])]
+            if len(ds0) == 1 and ds0[0][1] != "term" and ds0[0][2]["rv"]["k"] == "agg" and ds0[0][2]["rv"].get("tuple"):
+                o2 = ds0[0][2]["rv"]["ops"][int(proj[0][1:])]
+                if op_place(o2) is None:
+                    return "const"
+                cur, proj = op_place(o2)["l"], [x for x in op_place(o2)["p"] if x != "*"] + proj[1:]
+                continue
+        proj = [x for x in proj if not re.match(r"^\.(Some|Ok|Err)::\d+$", x) and not x.startswith("as ")]   # payload of an Option/Result: same value
         if proj:
             fields = [x for x in proj if x.startswith(".")]
             idx = [x for x in proj if x.startswith("[")]
